@@ -3,7 +3,10 @@
    correspondence run (reference oracle on the implementation side). *)
 From Coq Require Import ZArith List Bool Lia.
 From MV Require Import Ast Eval Scalar Machine.
-From MV.Proofs Require Import Arith Logic Prim View OpsLocal Guards Drops DrainIt IntoIt FilterIt Core Refine DrainAbs IterAt Grow IntoAbs FilterAt.
+From MV.Proofs Require Import Arith Logic Prim View OpsLocal Guards Drops DrainIt IntoIt FilterIt Core Refine DrainAbs IterAt Grow IntoAbs FilterAt SourceSpecs.
+From MV Require Import EquivDefs Prims EquivTac EquivIter.
+From MV.Gen Require Import AstGen.
+Close Scope string_scope.
 Import ListNotations.
 Open Scope Z_scope.
 
@@ -258,3 +261,16 @@ Proof.
     + intros e He. vm_compute in He. destruct He as [<-|[<-|[]]]; simpl; lia.
   - split; reflexivity.
 Qed.
+
+(* END TO END for Drain::next: the REGENERATED body evaluated by the IR semantics on a well-formed Drain
+   object yields the element under the front cursor (None when the window is empty) and advances the
+   cursor in the object; nothing else is touched *)
+Theorem C10_the_source_of_drain_next_follows_the_cursor :
+  forall cfg ncap, cfg_ok cfg -> forall s i d b bl off a j r,
+  iter_get i s = (Val (IDrain d), s) -> drain_inv cfg s d b bl off a j r ->
+  runm cfg ncap drain__Drain__next_ast [iter_val i] s =
+    if a <? j
+    then (Norm (opt_elem_val (Some (slot_elem (slots bl a)))), with_iter s i (IDrain (with_pos d (PElt b off (a + 1)))))
+    else (Norm (opt_elem_val None), s).
+Proof. exact drain_next_source. Qed.
+Print Assumptions C10_the_source_of_drain_next_follows_the_cursor.
